@@ -81,6 +81,10 @@ CHECKS = {
              text="Bounded-exhaustive histories (depth 5 quick / 7 thorough) of filter / learn / forget / import / add_signature / threshold change / clock advance on the real Membrane over 15 inputs (four planted-signature groups, substring and regex, built-in / learned / custom, plain / case-swapped / embedded / hostile-decorated) with and without rate limits; innate gate over pattern combinations x thresholds 1..5 x variants and the shipped validators on hostile text; TLC evaluates AllowedSound, PlantedIsMatched, LevelIsMax, VariantMonotone, ReplayMemory, RateLimit, AuditAppend and NoRaise.",
              note="Trusted: TLC/SANY; ground truth is by construction (planted instances), matching is never re-implemented. Which concrete strings a regex matches is reached by sampling only (DESIGN.md section 10).",
              ref="DESIGN.md section 4 C10"),
+ "C05": dict(technique="TLA+ specs: MetabolismConc.tla (lock per store, transfer = two critical sections) model-checked for deadlock freedom / NonNeg / no creation; MetabolismFn.tla (sequential specification, checked to agree with Metabolism.tla); real threads on real ATP_Store objects under a deterministic line-granularity scheduler, every distinct history checked for linearizability by TLC (Trace_Lin.tla)",
+             text="Schedule exploration on the real code: 14 (quick) / 18 (thorough) programs of 2-3 threads x 1-3 operations on one or two shared stores, every schedule with at most 2 (3) preemptions at source-line granularity plus seeded random schedules; for each distinct history TLC searches a linearization (consistent with the real-time order, a transfer being a debit step and a credit step) that reproduces every return value and the final state; deadlock is observed by the scheduler, not waited for.",
+             note="Trusted: TLC/SANY, the line scheduler (sys.settrace) and the owner-aware lock substituted for threading.Lock by module namespace. Exhaustive only up to the preemption bound; line granularity is assumed to be the preemption granularity (DESIGN.md section 10).",
+             ref="DESIGN.md section 4 C05"),
 }
 NOT_APPLICABLE = []
 
